@@ -156,7 +156,10 @@ def generate(rng, tier, prop):
             if rng.random() < 0.5:
                 ops.append(dict(faults.draw(rng), op="fault", path="c.bib", other=1))
             ops.append({"op": "load_into", "path": "c.bib", "stack": rng.choice(["default", "none", "raising"])})
-        ops.append({"op": "save", "path": "b.bib", "fmt": rng.choice([None, 0, 1, 2]), "how": "string"})
+        # (value_column alignment pads EVERY field to the longest key: on a size-scaled document whose damage produced
+        #  one enormous "key" that is fields x key-length characters of output - gigabytes - and says nothing about C01)
+        giant = any("big" in d and d.get("scale", 0) >= 10_000 for d in cfg["docs"])
+        ops.append({"op": "save", "path": "b.bib", "fmt": None if giant else rng.choice([None, 0, 1, 2]), "how": "string"})
         ops.append({"op": "load", "path": "b.bib", "stack": rng.choice(["default", "none"]), "via": via})
         if rng.random() < 0.3:
             ops.append(dict(faults.draw(rng), op="fault", path="b.bib", other=1))
